@@ -259,7 +259,7 @@ def generate(rng, tier):
     if tier == 'thorough':
         cases += list(exhaustive_cases())
         cases += list(grown_prefix_cases())
-        n_rand = 40000
+        n_rand = 20000
     else:
         ex = list(exhaustive_cases())
         cases += rng.sample(ex, 700)
